@@ -9,7 +9,7 @@ theorem keyStr_norm {k : Key} (h : k.dumpable = true) :
   | bool b => cases b <;> exact ⟨_, rfl, rfl⟩
   | int i => exact ⟨_, rfl, rfl⟩
   | str s => exact ⟨_, rfl, rfl⟩
-  | tuple => simp [Key.dumpable] at h
+  | tuple xs => simp [Key.dumpable] at h
 
 
 theorem keyPlain_spec {k : Key} (h : keyPlain k = true) :
@@ -52,7 +52,7 @@ theorem raw_lossy : (v : PV) → RawPlain v = true → ∃ j, rawDump v = .ok j 
   | .datetime _, h => by simp [RawPlain] at h
   | .action _ _ _ _ _ _ _, h => by simp [RawPlain] at h
   | .partialFn, h => by simp [RawPlain] at h
-  | .regex _, h => by simp [RawPlain] at h
+  | .regex _ _, h => by simp [RawPlain] at h
   | .cmp, h => by simp [RawPlain] at h
   | .other _, h => by simp [RawPlain] at h
 theorem raw_lossy_list : (xs : List PV) → RawPlainList xs = true → ∃ js, rawDumpList xs = .ok js ∧ decodeList js = .ok (rawNormList xs)
@@ -124,10 +124,18 @@ theorem lossy : (v : PV) → Decodable v = true → ∃ j, encode v = .ok j ∧ 
     simp [wrap, decode, norm, typeTag, decodeAtValue, h2, this, bind, Except.bind, pure, Except.pure]
   | .dict kvs, h => by
     simp only [Decodable] at h
-    obtain ⟨o, h1, h2⟩ := lossy_kvs kvs h
-    refine ⟨wrap "dict" (.obj o), by simp [encode, h1, bind, Except.bind, pure, Except.pure], ?_⟩
     have := builtin_tags_not_classes
-    simp [wrap, decode, norm, typeTag, decodeItemsAtValue, h2, this, bind, Except.bind, pure, Except.pure]
+    by_cases hs : allStr kvs = true
+    · obtain ⟨o, h1, h2⟩ := lossy_vals kvs h hs
+      refine ⟨wrap "dict" (.obj o), by simp [encode, hs, h1, bind, Except.bind, pure, Except.pure], ?_⟩
+      simp [wrap, decode, norm, typeTag, hasKey, decodeItemsAtValue, h2, this, bind, Except.bind, pure, Except.pure]
+    · obtain ⟨items, h1, h2⟩ := lossy_items kvs h
+      refine ⟨.obj [("__type", .str "dict"), ("items", .arr items)], by simp [encode, hs, h1, bind, Except.bind, pure, Except.pure], ?_⟩
+      simp [decode, norm, typeTag, hasKey, decodePairsAtItems, h2, this, bind, Except.bind, pure, Except.pure]
+  | .regex p f, _ => by
+    refine ⟨_, by simp [encode]; rfl, ?_⟩
+    have := builtin_tags_not_classes
+    simp [decode, norm, typeTag, strField, intField, this, bind, Except.bind, pure, Except.pure]
   | .railsConfig kvs, h => by
     simp only [Decodable] at h
     obtain ⟨o, h1, h2⟩ := lossy_kvs kvs h
@@ -163,7 +171,6 @@ theorem lossy : (v : PV) → Decodable v = true → ∃ j, encode v = .ok j ∧ 
     refine ⟨_, by simp [encode, c1, a1, bind, Except.bind, pure, Except.pure]; rfl, ?_⟩
     cases fu <;>
     simp [wrap, decode, norm, typeTag, decodeAtValue, decodePlain, optStrJ, c2, a2, lookup_action, hs, bind, Except.bind, pure, Except.pure]
-  | .regex _, h => by simp [Decodable] at h
   | .cmp, h => by simp [Decodable] at h
   | .other _, h => by simp [Decodable] at h
 theorem lossy_list : (xs : List PV) → DecodableList xs = true → ∃ js, encodeList xs = .ok js ∧ decodeList js = .ok (normList xs)
@@ -184,6 +191,26 @@ theorem lossy_kvs : (kvs : List (Key × PV)) → DecodableKvs kvs = true →
     obtain ⟨s, hk1, hk2⟩ := keyStr_norm hk
     exact ⟨(s, j) :: o, by simp [encodeKvs, h1, h3, hk1, bind, Except.bind, pure, Except.pure],
       by simp [decodePlain, normKvs, h2, h4, hk2, bind, Except.bind, pure, Except.pure]⟩
+theorem lossy_vals : (kvs : List (Key × PV)) → DecodableVals kvs = true → allStr kvs = true →
+    ∃ o, encodeVals kvs = .ok o ∧ decodePlain o = .ok (normVals kvs)
+  | [], _, _ => ⟨[], by simp [encodeVals], by simp [decodePlain, normVals]⟩
+  | (k, v) :: rest, h, hs => by
+    simp only [DecodableVals, Bool.and_eq_true] at h
+    obtain ⟨hk, hr⟩ := allStr_cons hs
+    obtain ⟨j, h1, h2⟩ := lossy v h.1
+    obtain ⟨o, h3, h4⟩ := lossy_vals rest h.2 hr
+    obtain ⟨_, hk2⟩ := keyStr_str hk
+    exact ⟨(keyName k, j) :: o, by simp [encodeVals, h1, h3, bind, Except.bind, pure, Except.pure],
+      by simp [decodePlain, normVals, h2, h4, hk2, bind, Except.bind, pure, Except.pure]⟩
+theorem lossy_items : (kvs : List (Key × PV)) → DecodableVals kvs = true →
+    ∃ items, encodeItems kvs = .ok items ∧ decodePairs items = .ok (normVals kvs)
+  | [], _ => ⟨[], by simp [encodeItems], by simp [decodePairs, normVals]⟩
+  | (k, v) :: rest, h => by
+    simp only [DecodableVals, Bool.and_eq_true] at h
+    obtain ⟨j, h1, h2⟩ := lossy v h.1
+    obtain ⟨items, h3, h4⟩ := lossy_items rest h.2
+    exact ⟨.arr [encodeKey k, j] :: items, by simp [encodeItems, h1, h3, bind, Except.bind, pure, Except.pure],
+      by simp [decodePairs, normVals, decode_encodeKey, keyOfPV_toPV, h2, h4, bind, Except.bind, pure, Except.pure]⟩
 end
 
 
@@ -197,7 +224,7 @@ theorem rawNorm_id : (v : PV) → RawOk v = true → rawNorm v = v
   | .list xs, h => by simp only [RawOk] at h; simp [rawNorm, rawNormList_id xs h]
   | .dict kvs, h => by simp only [RawOk] at h; simp [rawNorm, rawNormKvs_id kvs h]
   | .tuple _, h | .set _, h | .deque _, h | .data _ _, h | .railsConfig _, h | .specType _, h | .enum _ _, h
-  | .datetime _, h | .action _ _ _ _ _ _ _, h | .partialFn, h | .regex _, h | .cmp, h | .other _, h => by
+  | .datetime _, h | .action _ _ _ _ _ _ _, h | .partialFn, h | .regex _ _, h | .cmp, h | .other _, h => by
     simp [RawOk] at h
 theorem rawNormList_id : (xs : List PV) → RawOkList xs = true → rawNormList xs = xs
   | [], _ => rfl
@@ -213,13 +240,14 @@ end
 
 mutual
 theorem norm_id : (v : PV) → Encodable v = true → norm v = v
-  | .none, _ | .bool _, _ | .int _, _ | .flt _ _, _ | .str _, _ | .datetime _, _ | .specType _, _ | .enum _ _, _ => by
+  | .none, _ | .bool _, _ | .int _, _ | .flt _ _, _ | .str _, _ | .datetime _, _ | .specType _, _ | .enum _ _, _
+  | .regex _ _, _ => by
     simp [norm]
   | .list xs, h => by simp only [Encodable] at h; simp [norm, normList_id xs h]
   | .tuple xs, h => by simp only [Encodable] at h; simp [norm, normList_id xs h]
   | .set xs, h => by simp only [Encodable] at h; simp [norm, normList_id xs h]
   | .deque xs, h => by simp only [Encodable] at h; simp [norm, normList_id xs h]
-  | .dict kvs, h => by simp only [Encodable] at h; simp [norm, normKvs_id kvs h]
+  | .dict kvs, h => by simp only [Encodable] at h; simp [norm, normVals_id kvs h]
   | .railsConfig kvs, h => by simp only [Encodable] at h; simp [norm, normKvs_id kvs h]
   | .data cls kvs, h => by
     simp only [Encodable, Bool.and_eq_true] at h
@@ -227,7 +255,7 @@ theorem norm_id : (v : PV) → Encodable v = true → norm v = v
   | .action _ _ _ _ ctx args _, h => by
     simp only [Encodable, Bool.and_eq_true] at h
     simp [norm, rawNorm_id ctx h.1.1, rawNorm_id args h.1.2]
-  | .partialFn, h | .regex _, h | .cmp, h | .other _, h => by simp [Encodable] at h
+  | .partialFn, h | .cmp, h | .other _, h => by simp [Encodable] at h
 theorem normList_id : (xs : List PV) → EncodableList xs = true → normList xs = xs
   | [], _ => rfl
   | x :: xs, h => by
@@ -238,6 +266,11 @@ theorem normKvs_id : (kvs : List (Key × PV)) → EncodableKvs kvs = true → no
   | (k, v) :: rest, h => by
     simp only [EncodableKvs, Bool.and_eq_true] at h
     simp [normKvs, norm_id v h.1.1, normKey_str h.1.2, normKvs_id rest h.2]
+theorem normVals_id : (kvs : List (Key × PV)) → EncodableVals kvs = true → normVals kvs = kvs
+  | [], _ => rfl
+  | (k, v) :: rest, h => by
+    simp only [EncodableVals, Bool.and_eq_true] at h
+    simp [normVals, norm_id v h.1, normVals_id rest h.2]
 end
 
 end NemoVerif.Serialize
